@@ -53,7 +53,8 @@ _CPU_BUDGET_S = 200.0
 _REPAIRED_READER_SITES = {
     '_split_positions', '_configobj_load', 'check_inputfile_sections',
     'strip_assignment_section', 'check_spacergrid',
-    'check_unrodded_regions', '__init__', 'load_input'}
+    'check_unrodded_regions', 'get_timepoints', '__init__',
+    'load_input'}
 
 SEMANTIC = ['pins_dont_fit', 'wire_too_thick', 'clad_too_thick',
             'nonpositive_dimension', 'duct_ge_pitch', 'unequal_outer_ducts',
@@ -542,7 +543,8 @@ class C18(Prop):
                         # as F-C18-6
                         extra.add('damaged_text_reader_traceback')
                     vio('outcome.unhandled_exception', f'{site} {cs}',
-                        out['detail'], feats | {'crash', cs} | extra)
+                        out['detail'],
+                        feats | {'crash', cs, f'{cs}:{fn}'} | extra)
                     continue
                 if oc == 'hang':
                     if 'plane cap' in out['detail']:
